@@ -745,6 +745,7 @@ def path_conditions(body, target, want, limit=4000, track_consts=False, else_set
 
 # ---------------------------------------------------------------------------------------------
 # Effect skeleton + table of hand-verified equivalent spellings
+SK_DEPTH = int(os.environ.get('VERIF_SK_DEPTH', '20'))
 SKELETON_TRIVIAL = {"deref", "deref_mut", "borrow", "borrow_mut", "as_ref", "as_mut", "into_iter", "branch", "from_residual",
                     "from_output", "clone", "iter", "iter_mut", "as_str", "as_slice", "new_const", "new_v1", "none",
                     "Arguments::new_const", "Arguments::new_v1", "Argument::new_display", "Argument::new_debug"}
@@ -879,11 +880,11 @@ def skeleton(F, path, depth=0):
             if s["k"] == "assign" and s["p"]["l"] == 0 and not s["p"]["proj"]:
                 if conds is None:
                     conds = cs()
-                out.append((bi, "%s[%s] ret := %s" % (nest, conds, pp_x(shape.subst_upvars(xb.expr_of_rvalue(s["rv"], 10, (bi, si)), up)))))
+                out.append((bi, "%s[%s] ret := %s" % (nest, conds, pp_x(shape.subst_upvars(xb.expr_of_rvalue(s["rv"], SK_DEPTH + 2, (bi, si)), up)))))
             elif s["k"] == "assign" and s["p"]["proj"] and (s["p"]["proj"][0] == "deref" or b.is_arg(s["p"]["l"])):
                 if conds is None:
                     conds = cs()
-                out.append((bi, "%s[%s] %s := %s" % (nest, conds, pp_x(shape.subst_upvars(xb.expr_of_place(s["p"], 8, (bi, si)), up)), pp_x(shape.subst_upvars(xb.expr_of_rvalue(s["rv"], 10, (bi, si)), up)))))
+                out.append((bi, "%s[%s] %s := %s" % (nest, conds, pp_x(shape.subst_upvars(xb.expr_of_place(s["p"], SK_DEPTH, (bi, si)), up)), pp_x(shape.subst_upvars(xb.expr_of_rvalue(s["rv"], SK_DEPTH + 2, (bi, si)), up)))))
         t = blk["term"]
         if t["k"] == "call":
             f = t["func"]
@@ -893,7 +894,7 @@ def skeleton(F, path, depth=0):
                 continue
             if conds is None:
                 conds = cs()
-            args = ", ".join(pp_x(shape.subst_upvars(xb.expr_of_operand(a, 8, (bi, "term")), up)) for a in t.get("args", []))
+            args = ", ".join(pp_x(shape.subst_upvars(xb.expr_of_operand(a, SK_DEPTH, (bi, "term")), up)) for a in t.get("args", []))
             dst = t.get("dest")
             out.append((bi, "%s[%s] %s%s(%s)" % (nest, conds, "ret := " if dst and dst["l"] == 0 and not dst["proj"] else "", name, args)))
     # canonical order: entries on one path keep their order (rank = longest chain of entries before it, back edges
